@@ -258,6 +258,10 @@ class QueueAnalysis:
                 if nm in ("len", "is_empty") and r.kind == "return":
                     mp = self.effs(r, "MAP")
                     ok = len(mp) == 1 and mp[0][1] == "MAP." + nm and r.value == mp[0][3] and self.field_of(mp[0][2][0]) == self.map_field["name"]
+                    if not ok and nm == "is_empty" and len(mp) == 1 and mp[0][1] == "MAP.len" and self.field_of(mp[0][2][0]) == self.map_field["name"]:
+                        # `self.len() == 0` (what the map's own is_empty does)
+                        v = r.value
+                        ok = isinstance(v, tuple) and v[0] == "bin" and v[1] == "Eq" and {v[2], v[3]} == {mp[0][3], Int(0)}
                     chk.require(ok, rid, b.defp + ":is-map-" + nm, b.span, "%s returns %s" % (nm, short(r.value)), describe_path(r))
 
     def rule_to_vec(self, chk, rid):
